@@ -14,3 +14,13 @@ import MicroHttp.Props.C01
 #print axioms MicroHttp.Tables.crlf_len
 #print axioms MicroHttp.C01.tryRead_refines
 #print axioms MicroHttp.C01.sched_refines
+#print axioms MicroHttp.Tables.display_request_error_templates
+#print axioms MicroHttp.Tables.display_header_error_templates
+#print axioms MicroHttp.Tables.invalid_method_texts
+#print axioms MicroHttp.Tables.invalid_version_texts
+#print axioms MicroHttp.Tables.invalid_uri_texts
+#print axioms MicroHttp.Tables.bad_request_prefix
+#print axioms MicroHttp.Tables.bad_request_suffix
+#print axioms MicroHttp.Tables.header_error_display
+#print axioms MicroHttp.Tables.request_error_display
+#print axioms MicroHttp.Tables.bad_request_body
